@@ -21,7 +21,9 @@ RULE = (
     "compiled against the mock core and its trace compared with CPython's run of the same text. Non-trivial = accepted, "
     "compiled, >=5 observable events and at least one of: loop with break/continue, helper call, list op, main loop with "
     "N>=2. distinct = distinct script text + tape. Classes of open findings are excluded by construction and by a dynamic "
-    "membership test on the CPython run (counted)."
+    "membership test on the CPython run (counted). Exotic shards: ~170 typed expression templates outside the documented subset (bit operators, powers, truthiness of every type, "
+    "string indexing / ordering, mixed numeric types, built-ins, methods, slices, membership, formatting) instantiated over int/float/str/bool/list variables and literals in six contexts "
+    "(print, assignment, condition, helper return, main loop, copy): ValueError or the same trace as CPython; templates of open findings are off while the finding is open."
 )
 ASSUMPTIONS = [
     "host g++ with AVR-like flags against the mock Arduino core stands in for avr-g++ and the real core",
@@ -39,7 +41,7 @@ tape_st = st.fixed_dictionaries({
 
 def plan(tier):
     n = 60 if tier == "quick" else 1500
-    return [(f"gen-{i}", {"n": n}) for i in range(16)]
+    return [(f"gen-{i}", {"n": n}) for i in range(16)] + [(f"exotic-{i}", {"n": 30 if tier == "quick" else 1500}) for i in range(16)]
 
 
 def nontrivial(feats, out, n):
@@ -59,7 +61,47 @@ def _tape(t):
     return {k: {int(p): v for p, v in d.items()} for k, d in t.items()}
 
 
+def open_classes():
+    from vlib.runner import load_known
+
+    off = set()
+    for f in load_known():
+        if f.get("status") == "open" and f.get("property") in ("C01", "C06"):
+            off.update(f.get("excluded_by") or [])
+    return off
+
+
+def run_exotic(name, seed, tier, n):
+    from checks import c01_exotic as ex
+
+    r = Result()
+    found = {}
+    off = frozenset(open_classes())
+
+    @hseed(seed)
+    @hyp_settings(n, phases=(Phase.generate,))
+    @given(ex.exotic_case(off))
+    def prop(case):
+        out = diff.evaluate(case["src"], case["n"], _tape(case["tape"]), off=frozenset())
+        r.count("exotic:" + out.status)
+        if out.status == "rejected":
+            r.count("exotic_rejected:" + case["template"])
+        c = {k: case[k] for k in ("src", "n", "tape")}
+        r.case(c if len(r.samples) < 1 else {"src": case["src"][len(ex.PRELUDE):]}, out.status == "ok")
+        if out.status == "FAIL":
+            key = f"exotic:{case['template']}:{out.bucket}"
+            if key not in found or len(case["src"]) < len(found[key][0]["src"]):
+                found[key] = (c, out)
+
+    prop()
+    for key, (c, out) in found.items():
+        r.fail(key, c, "firmware trace == CPython trace (or ValueError)", out.detail)
+    return r
+
+
 def run_shard(name, seed, tier, n):
+    if name.startswith("exotic"):
+        return run_exotic(name, seed, tier, n)
     r = Result()
     found = {}
 
